@@ -70,6 +70,14 @@ def ids(cfg):
 
 
 CLR, SLR = 0.5, 1.0
+LAMBDA = 0.25
+
+
+def reg_of(cfg):
+  """regularizer(params) handed to the algorithm; the reference differentiates the same function."""
+  if not cfg.get('reg'):
+    return None
+  return lambda p: LAMBDA * sum(jnp.sum(l * l) for l in jax.tree_util.tree_leaves(p))
 
 
 def code_fn(cfg):
@@ -84,13 +92,13 @@ def code_fn(cfg):
       alg = F['fed_prox'].fed_prox(pel, copt, sopt, hp(cfg), proximal_weight=(0.0 if cfg['mu'] == 'zero' else mu))
       state = alg.init({'w': w, 'b': b})
     elif alg_name == 'hyp_cluster':
-      alg = F['hyp_cluster'].hyp_cluster(pel, copt, sopt, pad, hp(cfg))
+      alg = F['hyp_cluster'].hyp_cluster(pel, copt, sopt, pad, hp(cfg), regularizer=reg_of(cfg))
       state = alg.init([{'w': w, 'b': b}])
     elif alg_name == 'mime_lite':
-      alg = F['mime_lite'].mime_lite(pel, opt('sgd', CLR), hp(cfg), pad, server_learning_rate=1.0)
+      alg = F['mime_lite'].mime_lite(pel, opt('sgd', CLR), hp(cfg), pad, server_learning_rate=1.0, regularizer=reg_of(cfg))
       state = alg.init({'w': w, 'b': b})
     elif alg_name == 'mime':
-      alg = F['mime'].mime(pel, opt('sgd', CLR), hp(cfg), pad, server_learning_rate=cfg.get('slr', 0.25))
+      alg = F['mime'].mime(pel, opt('sgd', CLR), hp(cfg), pad, server_learning_rate=cfg.get('slr', 0.25), regularizer=reg_of(cfg))
       state = alg.init({'w': w, 'b': b})
     elif alg_name == 'apfl':
       alg = F['apfl'].adaptive_personalized_federated_learning(F['models'].grad(pel), copt, sopt, hp(cfg), client_coefficient=0.5)
@@ -125,7 +133,8 @@ def ref_fn(cfg):
       # one full-batch gradient step over the cohort scaled by the server learning rate
       n = sum(sizes)
       allidx = np.arange(n, dtype=np.int32)
-      g = jax.grad(lambda p: jnp.sum(pel(p, {'idx': allidx}, keys[0, 0])) / n)(params)
+      rg = reg_of(cfg)
+      g = jax.grad(lambda p: jnp.sum(pel(p, {'idx': allidx}, keys[0, 0])) / n + (rg(p) if rg else 0.0))(params)
       return {'params': jax.tree_util.tree_map(lambda p, q: p - cfg.get('slr', 0.25) * CLR * q, params, g)}
     sstate = sopt.init(params)
     for r in range(cfg.get('rounds', 1)):
@@ -144,6 +153,8 @@ def ref_fn(cfg):
 
           def loss(q):
             l = jnp.mean(pel(q, {'idx': bidx}, use))
+            if reg_of(cfg) is not None:
+              l = l + reg_of(cfg)(q)
             if alg_name == 'fed_prox' and cfg['mu'] != 'zero':
               l = l + 0.5 * mu * sum(jnp.sum((a - c) ** 2) for a, c in zip(jax.tree_util.tree_leaves(srv), jax.tree_util.tree_leaves(q)))
             return l
@@ -231,6 +242,14 @@ def configs(tier):
     out.append(dict(base, alg='apfl', fam=fam))
     out.append(dict(base, alg='mime', fam=fam, steps=1, epochs=None))
   out.append(dict(base, alg='hyp_cluster', fam='lin', sizes=[2, 0, 1]))
+  # stateful client optimizer over >= 2 local steps; a client returning in round 2 (APFL keeps per-client state)
+  out.append(dict(base, alg='hyp_cluster', fam='lin', sizes=[2, 1], batch=1, copt='momentum'))
+  out.append(dict(base, alg='apfl', fam='lin', sizes=[2, 1], batch=1, copt='momentum', rounds=2))
+  out.append(dict(base, alg='fed_prox', mu='sym', fam='lin', sizes=[2, 1], batch=1, copt='momentum'))
+  # a regularizer is part of the objective: Mime's single step and MimeLite / HypCluster local training include it exactly once
+  out.append(dict(base, alg='mime', fam='lin', steps=1, epochs=None, reg=True))
+  out.append(dict(base, alg='mime_lite', fam='lin', reg=True))
+  out.append(dict(base, alg='hyp_cluster', fam='lin', reg=True))
   if tier == 'thorough':
     for sizes in ([2, 0, 3], [4, 1], [1, 1, 1]):
       for fam in ('lin', 'ufk'):
